@@ -210,7 +210,8 @@ def check(plan, res):
         # what the driver accepted for this connection = what it transmitted + what still sits in its ring at the end
         stream = b''.join(b for _, b in txs.get(c, [])) + ring.get(c, b'')
         msgs = [it[0] for it in lst]
-        decomps = _matches(stream, msgs)
+        pre = _best_decomp(stream, lst, txs.get(c, []), failed_at.get(c))
+        decomps = [pre] if pre is not None else []
         if not decomps:
             v.append(Violation(PROP, 'stream', 'bytes sent to conn %d are not an in-order concatenation of message prefixes (%d messages, %d bytes)' % (c, len(msgs), len(stream)),
                                PROP + '/stream/not-prefix-concat'))
@@ -236,6 +237,64 @@ def check(plan, res):
             v.append(Violation(PROP, 'undrained', 'conn %s still holds %s unsent bytes %d cycles after its window opened for good' % (kv['conn'], kv['outlen'], ncyc - opened[c]),
                                PROP + '/liveness/ring-not-drained'))
     return v
+
+
+def _best_decomp(stream, lst, txlist, fidx):
+    """the decomposition of stream into in-order message prefixes that explains it with the fewest violations (memoised
+    search over (position, message); the candidates at each cut are those of _matches).  None if there is none."""
+    import sys, bisect
+    n = len(lst)
+    tx_idx = [i for i, x in txlist]; tx_cum = [0]
+    for i, x in txlist: tx_cum.append(tx_cum[-1] + len(x))
+
+    def sent_before(didx): return tx_cum[bisect.bisect_left(tx_idx, didx)]
+
+    def lcp(m, pos):
+        lim = min(len(m), len(stream) - pos)
+        if stream[pos:pos + lim] == m[:lim]: return lim
+        lo, hi = 0, lim
+        while hi - lo > 1:
+            mid = (lo + hi) // 2
+            if stream[pos:pos + mid] == m[:mid]: lo = mid
+            else: hi = mid
+        return lo
+    memo = {}
+
+    def g(pos, j):
+        # -> {suffix_has_bytes: (cost, k or None)}
+        if j == n: return {False: (0, None)} if pos == len(stream) else {}
+        key = (pos, j)
+        if key in memo: return memo[key]
+        mm, label, oidx, didx = lst[j]
+        k0 = lcp(mm, pos)
+        cands = [k0] + [c for c in (k0 - 1, k0 - 2, k0 - 3) if c >= 0]
+        if k0 <= 5: cands = list(range(k0, -1, -1))
+        best = {}
+        for k in cands:
+            sub = g(pos + k, j + 1)
+            for hb2, ent in sub.items():
+                cost2 = ent[0]
+                exempt = (fidx is not None and not hb2) or didx is None or k == len(mm)
+                local = 0
+                if not exempt:
+                    if k > 0 and mm[k - 1:k] == b'\r' and mm[k:k + 1] == b'\n' and mm != b'\r\r\n': local += 1
+                    if (pos + k) - sent_before(didx) < CAP - 1: local += 1
+                hb = hb2 or k > 0
+                tot = cost2 + local
+                if hb not in best or tot < best[hb][0]: best[hb] = (tot, k, hb2)
+        memo[key] = best
+        return best
+    old = sys.getrecursionlimit(); sys.setrecursionlimit(max(old, 4 * n + 1000))
+    try:
+        top = g(0, 0)
+        if not top: return None
+        hb = min(top, key=lambda h: top[h][0])
+        pre = []; pos = 0
+        for j in range(n):
+            tot, k, hb2 = memo[(pos, j)][hb]
+            pre.append(k); pos += k; hb = hb2
+        return pre
+    finally: sys.setrecursionlimit(old)
 
 
 def _judge(c, lst, pre, txlist, fidx):
